@@ -56,6 +56,11 @@ def c08(run: Run):
     rules_c08.check(run, program(run), cyprogram(run), sites(run))
 
 
+def c09(run: Run):
+    from . import rules_c09
+    rules_c09.check(run, program(run))
+
+
 def c11(run: Run):
     from . import rules_c11
     rules_c11.check(run, program(run), cyprogram(run), sites(run))
@@ -82,6 +87,7 @@ CHECKS = {
     "C06": c06,
     "C07": c07,
     "C08": c08,
+    "C09": c09,
     "C11": c11,
     "C19": c19,
 }
